@@ -22,8 +22,27 @@ are appended as the layers land), and anything host-level.
 Layers collected so far:
   * L3 arithmetic (Model/Arith.lean): every word of `arithTable` (the 32 words of arith.rs except
     `random`), every data stack, hidden prefix 0.
+  * L4 the VM (Model/VM.lean) over the whole modelled word table (93 words: stack, control helpers,
+    arithmetic, collections, tags, text encodings, printing): `vm_never_panics` — for EVERY machine state
+    (well formed or not), every program, every number of steps, `State::run` answers a result or an error
+    value; the only `panic` values the model can produce are its own two gap markers (a word the table
+    lacks, a value the printing model does not cover), which the driver reports as `unsupported`.
+    `vm_step_panics_only_in_words` is the same for one `fetch_and_run` and an arbitrary word table.
+  * L1 bit strings (Model/Bitstr.lean, where every index / `unwrap` / subtraction site of bitstr.rs is a
+    `panic` value): on a well-formed handle no operation panics (`noPanic_bitstr`, from the C04 refinement
+    theorems, which state `= .ok …`).
+  * token location (`pretty_error` / `last_err_location`): `noPanic_token_location` (C17loc).
+  * Z85 decoding: the crate function does panic (`C18.z85_crate_panics`); behind the guard of the glue no
+    text reaches that path (`noPanic_z85`).
+  * The lexer and the compiler models return `Except` / `CRes`, types without a panic value: for them
+    panic-freedom is not a theorem but the content of the correspondence (every implementation answer,
+    including `panic`, is compared with a model that cannot answer `panic`).
 -/
 import XehModel.Props.C09
+import XehModel.Props.C04
+import XehModel.Props.C17loc
+import XehModel.Props.C18
+import XehModel.Proofs.NativeNoPanic
 import XehModel.Driver.C08
 
 namespace Xeh.C08
@@ -78,6 +97,84 @@ theorem driver_arith_never_panic (w : String) (cells : List String) :
   · simp
 
 end Arith
+
+/-! ### layer L4 — the VM over the whole word table -/
+section VM
+open Xeh.Mach
+
+/-- one `fetch_and_run` of a running machine, any word table: a panic can only come out of a word's program
+    (or be the marker of a word the table lacks) -/
+theorem vm_step_panics_only_in_words (np : String → Option Prog) (m : Mach) (s : String) (m' : Mach)
+    (hrun : m.isRunning = true) (h : Mach.step np m = (.panic s, m')) :
+    ∃ name, (np name = none ∧ s = s!"model: native word {name} is outside the model") ∨
+      ∃ p m0, np name = some p ∧ (Mach.runProg p m0).1 = .panic s :=
+  Mach.step_panic np m s m' hrun h
+
+/-- no program of the word table has a reachable panic node (printing words: only the gap marker) -/
+theorem words_never_panic (name : String) (p : Prog) (h : nativeProg name = some p) (m : Mach) (s : String)
+    (hp : (Mach.runProg p m).1 = .panic s) : s = "model: printing this value is outside the model" :=
+  Mach.runProg_only _ p (Mach.nativeProg_only name p h) m s hp
+
+/-- `State::run` from any machine state, any program, any number of steps -/
+theorem vm_never_panics (fuel : Nat) (m : Mach) (s : String) (m' : Mach)
+    (h : Mach.run nativeProg fuel m = some (.panic s, m')) :
+    s = "model: printing this value is outside the model" ∨
+    ∃ name, nativeProg name = none ∧ s = s!"model: native word {name} is outside the model" :=
+  Mach.vm_never_panics fuel m s m' h
+
+/-- with only covered words and printable values in play, `run` answers `ok` or an error value -/
+theorem vm_run_noPanic (np : String → Option Prog) (hall : ∀ name, ∃ p, np name = some p ∧ Mach.PanicFree p)
+    (fuel : Nat) (m : Mach) (s : String) (m' : Mach) : Mach.run np fuel m ≠ some (.panic s, m') :=
+  Mach.run_np np hall fuel m s m'
+
+/-- the hypothesis `isRunning` of the step theorem is needed: `fetch_and_run` beyond the program does panic
+    (which is why `next` and `run` test `ip < code.len()` first) -/
+example : (Mach.step nativeProg {}).1 = .panic "code[ip] out of bounds" := rfl
+
+/-- non-vacuity: a machine that fails (an error value, not a panic) and one that finishes -/
+example : (Mach.run nativeProg 5 { code := [.native "drop"] }).map (·.1) = some (.err .stackUnderflow) := rfl
+example : (Mach.run nativeProg 5 { code := [.loadI64 1, .native "dup", .native "+"] }).map (fun r => (r.1, r.2.ds)) =
+    some (.ok (), [.int 2]) := by decide
+
+end VM
+
+/-! ### layer L1 — bit strings on well-formed handles; token location; Z85 -/
+section Leaves
+open Xeh.Bitstr
+
+/-- every read-only operation, `detach`, `append`, `insert`, `invert` on a well-formed handle: a result, never a
+    panic (each index / `unwrap` / subtraction site of bitstr.rs is a `panic` value of the model) -/
+theorem noPanic_bitstr (h : Heap) (s t : Handle) (ws : WF h s) (wt : WF h t) (k : Nat)
+    (ht : t.buf = s.buf → 2 ≤ (h.buf s.buf).rc) :
+    NoPanic (h.view s).iter8 ∧ NoPanic (h.view s).bitsIter ∧ NoPanic (h.view s).toBytes ∧
+    NoPanic (h.view s).toBytesWithPadding ∧ NoPanic (h.view s).bytestr ∧ NoPanic (h.view s).toHexString ∧
+    NoPanic (View.eqWith (h.view s) (h.view t)) ∧
+    NoPanic (detach h s) ∧ NoPanic (append h s t) ∧ NoPanic (invert h s) ∧ NoPanic (insert h s k t) := by
+  refine ⟨?_, ?_, ?_, ?_, ?_, ?_, ?_, ?_, ?_, ?_, ?_⟩
+  · rw [View.iter8_spec _ ws.view]; exact noPanic_ok _
+  · rw [View.bitsIter_spec _ ws.view]; exact noPanic_ok _
+  · rw [View.toBytes_spec _ ws.view]; exact noPanic_ok _
+  · rw [View.toBytesWithPadding_spec _ ws.view]; exact noPanic_ok _
+  · rw [View.bytestr_spec _ ws.view]; exact noPanic_ok _
+  · rw [View.toHexString_spec _ ws.view]; exact noPanic_ok _
+  · rw [View.eqWith_spec _ _ ws.view wt.view]; exact noPanic_ok _
+  · obtain ⟨h', s', e, _⟩ := detach_spec h s ws; rw [e]; exact noPanic_ok _
+  · obtain ⟨h', r, e, _⟩ := append_spec h s t ws wt ht; rw [e]; exact noPanic_ok _
+  · obtain ⟨h', r, e, _⟩ := invert_spec h s ws; rw [e]; exact noPanic_ok _
+  · by_cases hk : s.start + k ≤ s.end_ ∧ s.start + k ≤ Bitstr.usizeMax
+    · obtain ⟨h', r, e, _⟩ := insert_spec h s t k ws wt hk.1 hk.2; rw [e]; exact noPanic_ok _
+    · rw [insert_invalid h s t k hk]; exact noPanic_ok _
+
+/-- `token_location` (behind `pretty_error` and `last_err_location`) on any text and any token start -/
+theorem noPanic_token_location (pre post : List Char) :
+    (Lex.tokenLocation (pre ++ post) (utf8Len pre)).isPanic = false :=
+  C17loc.location_total pre post
+
+/-- Z85 decoding behind the guard of the glue -/
+theorem noPanic_z85 (data : List Nat) (p : String) : Enc.z85Guarded data ≠ .panic p :=
+  C18.zero85_decode_never_panics data p
+
+end Leaves
 
 /-! ### non-vacuity: concrete instances, including the inputs that panicked before the `fix:` commits -/
 
